@@ -67,6 +67,13 @@ class Walker:
             return ("and" if isinstance(node.op, ast.And) else "or",) + tuple(self.pred(v, env) for v in node.values)
         if isinstance(node, ast.Name) and isinstance(env.get(node.id), tuple) and env[node.id][:1] == ("pred",):
             return env[node.id][1]
+        if isinstance(node, ast.Name) and isinstance(env.get(node.id), tuple):
+            # truthiness of a local: a constant, or a masked part of the code (non-zero iff some bit of the mask is set)
+            v = env[node.id]
+            if v[0] == "const":
+                return ("lit", bool(v[1]))
+            if v[0] == "and" and v[1] == ("v",) and isinstance(v[2], int):
+                return ("not", ("unset", v[2]))
         if isinstance(node, ast.Compare) and len(node.ops) == 1 and isinstance(node.ops[0], (ast.Eq, ast.NotEq)) \
                 and match(node, "self._value == 0") is None and match(node, "0 == self._value") is None:
             a, b = self.sym(node.left, env), self.sym(node.comparators[0], env)
@@ -177,7 +184,8 @@ class Walker:
         for i, st in enumerate(stmts):
             rest = stmts[i + 1:]
             if isinstance(st.value if isinstance(st, (ast.Assign, ast.Return)) else None, ast.IfExp) and (
-                    isinstance(st, ast.Return) or isinstance(st.targets[0], ast.Tuple)):
+                    isinstance(st, ast.Return) or isinstance(st.targets[0], ast.Tuple) or any(
+                        isinstance(x, ast.Constant) and x.value is None for x in (st.value.body, st.value.orelse))):
                 # a conditional value is the same as an if/else over two assignments / returns
                 e = st.value
                 mk = (lambda v: ast.copy_location(ast.Assign(targets=st.targets, value=v, lineno=st.lineno), st)) \
